@@ -8,6 +8,7 @@
 -/
 import SA.Proofs.Pipe
 import SA.Gen.Locks
+import SA.Gen.PkgVars
 namespace SA.Pipe
 
 theorem quiescent_iff (c : Cfg) (s : St) : quiescent c s = true ↔
@@ -317,3 +318,17 @@ end SA.Pipe
 #print axioms SA.Pipe.C14_refused_session_released
 #print axioms SA.Pipe.C14_witness_refusal_waits
 #print axioms SA.Pipe.C14_locks_not_reentrant
+
+namespace SA.PkgState
+/-- **no_hidden_process_state**: the models of this property are functions of their arguments and of the objects they are
+    handed; the packages they model keep no package-level variables besides these (regenerated inventory: error
+    sentinels, tables, compiled patterns, the two session time-outs).  A new package-level variable — a counter, a cache, a
+    scratch buffer, a shared map, a registry — would make later calls depend on earlier ones, or concurrent calls on each
+    other, outside anything a per-call comparison of model and code can see. -/
+theorem C14_no_hidden_process_state :
+    Gen.pkgVarNames_server = ["ChannelRegex"] ∧
+    Gen.pkgVarNames_streams = ["Localhost"] ∧
+    Gen.pkgVarNames_upstream = [] := by decide
+end SA.PkgState
+
+#print axioms SA.PkgState.C14_no_hidden_process_state
